@@ -30,6 +30,9 @@ type Union struct {
 	src2      bool
 	prevDir   Dir
 	src1      bool
+	// singles is true for the merge of two sources with empty keys.
+	// They are not set up for Select so Union applies the sels itself.
+	singles bool
 	state
 }
 
@@ -37,6 +40,7 @@ type unionApproach struct {
 	cols       []string // not necessarily a key if disjoint
 	strat      unionStrategy
 	reverse    bool
+	singles    bool
 	req1, req2 Require
 }
 
@@ -322,7 +326,8 @@ func (u *Union) optMerge(mode Mode, req Require) (Cost, Cost, *unionApproach) {
 			fc2, vc2 := Optimize(u.source2, mode, mr)
 			if fc1+vc1 < impossible && fc2+vc2 < impossible {
 				return fc1 + fc2, vc1 + vc2,
-					&unionApproach{strat: unionMerge, req1: mr, req2: mr}
+					&unionApproach{strat: unionMerge, req1: mr, req2: mr,
+						singles: true}
 			}
 		}
 	}
@@ -419,6 +424,7 @@ func (u *Union) setApproach(req Require, approach any, tran QueryTran) {
 	if u.disjoint != "" {
 		unionDisjointCount.Add(1)
 	}
+	u.singles = ap.singles
 	if ap.reverse {
 		u.source1, u.source2 = u.source2, u.source1
 	}
@@ -634,6 +640,15 @@ func (u *Union) Select(sels Sels) {
 	u.state = rewound
 	u.src1get = u.source1.Get
 	u.src2get = u.source2.Get
+	if u.singles {
+		u.source1.Rewind()
+		u.source2.Rewind()
+		if sels != nil {
+			u.src1get = u.selGet(u.source1, sels)
+			u.src2get = u.selGet(u.source2, sels)
+		}
+		return
+	}
 	if sels == nil { // clear
 		u.source1.Select(nil)
 		u.source2.Select(nil)
@@ -648,6 +663,32 @@ func (u *Union) Select(sels Sels) {
 		u.src2get = nothing
 	} else {
 		u.source2.Select(removeNonexistentEmpty(u.source2.Columns(), sels))
+	}
+}
+
+// selGet returns a Get that applies sels to the rows of a source
+// that is not set up for Select (see singles)
+func (u *Union) selGet(src Query, sels Sels) func(*Thread, Dir) Row {
+	srcCols := src.Columns()
+	if selConflict(srcCols, sels) {
+		return nothing
+	}
+	hdr := src.Header()
+	return func(th *Thread, dir Dir) Row {
+	outer:
+		for {
+			row := src.Get(th, dir)
+			if row == nil {
+				return nil
+			}
+			for _, sel := range sels {
+				if slices.Contains(srcCols, sel.col) &&
+					row.GetRawVal(hdr, sel.col, th, u.st) != sel.val {
+					continue outer
+				}
+			}
+			return row
+		}
 	}
 }
 
